@@ -9,7 +9,7 @@ from . import store as ST
 from .store import Row, same_rows_as_sets, same_rows_in_order, api_rows, row_of_event
 
 PROP = "C04"
-OPS = ["insert", "upsert_one", "upsert_many", "replace", "replace_last", "delete", "update_bucket", "delete_bucket"]
+OPS = ["insert", "upsert_one", "upsert_many", "replace", "replace_last", "delete", "update_bucket", "delete_bucket", "failing_bulk_insert_with_pending_writes"]
 
 
 def h_frame(x, bk, op, na, nb):
@@ -22,7 +22,14 @@ def h_frame(x, bk, op, na, nb):
     seq = x.zint("seq", 0, 2 * 10**6) if bk != "memory" else None
     ds = be.make(x, {"A": A, "B": B}, seq=seq)
     try:
-        before_api = api_rows(ds, "B")
+        if op == "failing_bulk_insert_with_pending_writes":
+            # B gets a write that is still buffered (not yet committed on the lazily committing store) ...
+            extra = ST.sym_rows(x, "x", 1, ids=False)[0]
+            ret = ds["B"].insert(ST.event_of_row(x, extra))
+            B = B + [Row(C.zv(ret.id), extra.start, extra.dur, extra.tag)]
+            before_api = None
+        else:
+            before_api = api_rows(ds, "B")
         before_meta = dict(ds["B"].metadata())
         b = ds["A"]
         new = ST.sym_rows(x, "n", 2, ids=False)
@@ -45,13 +52,20 @@ def h_frame(x, bk, op, na, nb):
                 ds.update_bucket("A", type_id="t2", client="c2", hostname="h2", name="n2", data={"k": 2})
             elif op == "delete_bucket":
                 ds.delete_bucket("A")
+            elif op == "failing_bulk_insert_with_pending_writes":
+                # ... then a bulk insert into A is rejected (second event is not JSON-serialisable)
+                bad = C.mk_event(x, new[1].start, new[1].dur, {"tag": x.wrap(new[1].tag), "bad": {1, 2}}, aligned=False)
+                b.insert([ST.event_of_row(x, new[0]), bad])
         except Exception as e:  # rejected: fine, as long as B is untouched
             raised = type(e).__name__
         tab = be.table_rows(ds)
         obl = [("other-bucket-rows-untouched", same_rows_as_sets(tab.get("B", []), B))]
         obl.append(("no-orphan-rows", "<orphans>" not in tab))
         after_api = api_rows(ds, "B")
-        obl.append(("other-bucket-reads-back-identical", same_rows_in_order(after_api, before_api)))
+        if before_api is None:
+            obl.append(("other-bucket-reads-back-identical", same_rows_as_sets(after_api, B)))
+        else:
+            obl.append(("other-bucket-reads-back-identical", same_rows_in_order(after_api, before_api)))
         obl.append(("other-bucket-metadata-identical", dict(ds["B"].metadata()) == before_meta))
         obl.append(("other-bucket-still-listed", "B" in ds.buckets()))
         return obl, [op, raised, len(tab.get("B", []))]
@@ -64,7 +78,8 @@ def harnesses(tier):
     ST.install_sqlite()
     hs = []
     sizes = [(1, 1)] if tier == "quick" else [(1, 1), (2, 2), (0, 2)]
-    for bk in ["memory", "sqlite"]:
+    ST.install_peewee()
+    for bk in ["memory", "sqlite", "peewee"]:
         for op in OPS:
             for na, nb in sizes:
                 if na == 0 and op in ("replace_last",):
